@@ -18,6 +18,7 @@ EXPLANATION = (
     'Also decided (round 8): The retry table (also when computed from errno names) contains all four transient errnos. '
     'Also decided (round 10): The back-off generator never ends. '
     'Also decided (round 9): Timeouts are set with settimeout() only (no SO_RCVTIMEO/SO_SNDTIMEO). '
+    'Also decided (round 11): After a short MSG_WAITALL read the counter is the length of that chunk; SocketConnection.recv/send let the exception of the exact read/write through unchanged (partialData travels on it). '
     "Not decided: exact bytes/order under scripts of partial reads, timing, MSG_WAITALL semantics."
 )
 
